@@ -124,6 +124,11 @@ var dirGen = rapid.Custom(func(t *rapid.T) Dir {
 	if rapid.IntRange(0, 2).Draw(t, "nest") > 0 {
 		parent = rapid.IntRange(0, 7).Draw(t, "parent")
 	}
+	// one directory in eight is named like a path component of the arguments of the two calls: the base name of the
+	// source directory, of the destination, of the archive, of the directory next to the tree that holds outside names
+	if rapid.IntRange(0, 7).Draw(t, "namedLikeAnArgument") == 7 {
+		return Dir{Parent: parent, Name: Name(rapid.SampledFrom([]string{"src", "src", "dest", "out.zip", "outside"}).Draw(t, "argName"))}
+	}
 	return Dir{Parent: parent, Name: Name(genName(t))}
 })
 
@@ -168,7 +173,7 @@ var preGen = rapid.Custom(func(t *rapid.T) PreFile {
 var editGen = rapid.Custom(func(t *rapid.T) Edit {
 	e := Edit{
 		Of:    rapid.IntRange(0, 24).Draw(t, "of"),
-		Op:    rapid.SampledFrom([]string{"shrink", "shrink", "empty", "grow", "rewrite", "samelen", "collide", "collide", "delete", "add"}).Draw(t, "op"),
+		Op:    rapid.SampledFrom([]string{"shrink", "shrink", "empty", "grow", "rewrite", "samelen", "collide", "collide", "delete", "add", "replace"}).Draw(t, "op"),
 		Extra: smallContentGen.Draw(t, "extra"),
 	}
 	if e.Op == "add" {
@@ -333,6 +338,32 @@ func applyDeriv(c *TreeCase, d deriv) {
 	}
 }
 
+// linkGen: an entry related to an entry the tree already has - a further name of an inode, in the directory of the first
+// name or in another one or outside the tree; an independent copy; a symbolic link to a file or a directory.
+var linkGen = rapid.Custom(func(t *rapid.T) Link {
+	l := Link{
+		Kind: rapid.SampledFrom([]string{"hard", "hard", "hard", "hard", "hard", "copy", "symfile", "symfile", "symdir"}).Draw(t, "linkKind"),
+		Of:   rapid.IntRange(0, 24).Draw(t, "of"),
+		Dir:  rapid.SampledFrom([]int{-2, -2, -1, 0, 1, 2, 3, 4, 5, 6, 7}).Draw(t, "dir"),
+	}
+	switch l.Kind {
+	case "hard":
+		l.Outside = rapid.IntRange(0, 5).Draw(t, "outside") == 0
+	case "symfile":
+		l.Outside = rapid.IntRange(0, 3).Draw(t, "outside") == 0
+		l.Abs = rapid.Bool().Draw(t, "abs")
+	case "symdir":
+		l.Abs = rapid.Bool().Draw(t, "abs")
+	}
+	// a name of its own, or a short one with a usual extension (so that suffix filters tell the names of an inode apart)
+	if rapid.Bool().Draw(t, "plainName") {
+		l.Name = Name(rapid.SampledFrom([]string{"link", "l", "f2", "copy", "a b"}).Draw(t, "stem") + rapid.SampledFrom([]string{"", ".txt", ".dat", ".lnk", ".bak", "~"}).Draw(t, "ext"))
+	} else {
+		l.Name = Name(genName(t))
+	}
+	return l
+})
+
 var destOpGen = rapid.Custom(func(t *rapid.T) DestOp {
 	return DestOp{
 		Kind: rapid.SampledFrom([]string{"all", "all", "dir", "dir", "dir", "file", "file", "contents"}).Draw(t, "kind"),
@@ -387,6 +418,10 @@ func genTree(t *rapid.T) TreeCase {
 			applyDeriv(&c, d)
 		}
 	}
+	// a third of the trees hold entries that are related through the file system: hard links, copies, symbolic links
+	if rapid.IntRange(0, 2).Draw(t, "links") == 0 {
+		c.Links = rapid.SliceOfN(linkGen, 1, 4).Draw(t, "linkList")
+	}
 	nd := len(c.Dirs)
 	bigs := 0
 	for i := range c.Files {
@@ -432,6 +467,9 @@ func genTree(t *rapid.T) TreeCase {
 			if f.Dir >= 0 && nd > 0 {
 				cands = append(cands, string(c.Dirs[f.Dir%nd].Name)+"/"+string(f.Name))
 			}
+		}
+		for _, l := range c.Links {
+			cands = append(cands, string(l.Name))
 		}
 		cands = append(cands, "f2", ".txt", "", "/f")
 		s := rapid.SampledFrom(cands).Draw(t, "suffixOf")
@@ -506,6 +544,84 @@ func TestC20TreeModes(t *testing.T) {
 			}
 		}
 	}
+}
+
+// TestC20TreeLinks: one systematic tree that holds every relation between entries a file system offers - two and three
+// names of one inode in one directory and across directories (a name in the source directory for a file deep in the
+// tree and the other way round), a hard-linked empty file, a hard-linked file of several buffers, a name outside the
+// tree, an independent copy, symbolic links to files (relative, absolute, outside) and to directories (a sub-directory,
+// the source directory itself) - under every filter kind and both values of the recursive flag, in one round and over
+// three rounds with edits written through one name, one name deleted, one name replaced by a new inode.
+func TestC20TreeLinks(t *testing.T) {
+	st := vstat.For(prop)
+	shard, shards := vstat.Shard()
+	n, ran := 0, 0
+	for _, filter := range []struct {
+		kind string
+		arg  Name
+	}{{"nil", ""}, {"suffix", ".dat"}, {"suffix", ".txt"}, {"dir", "sub"}, {"notdir", "sub"}} {
+		for _, recursive := range []bool{true, false} {
+			for _, rounds := range []int{1, 3} {
+				n++
+				if n%shards != shard {
+					continue
+				}
+				c := TreeCase{Filter: filter.kind, Arg: filter.arg, Recursive: recursive, TrailingSlash: n%2 == 0,
+					Dirs: []Dir{{Parent: -1, Name: "sub"}, {Parent: 0, Name: "deep"}, {Parent: -1, Name: "other"}},
+					Files: []File{
+						{Dir: -1, Name: "a.dat", Content: Content{Data: []byte("content of a")}}, // 0
+						{Dir: -1, Name: "e.dat"}, // 1 (empty)
+						{Dir: 0, Name: "s.txt", Content: Content{Data: []byte("content of s")}},         // 2
+						{Dir: 1, Name: "d.dat", Content: Content{Pad: 5000, Seed: 5}},                   // 3
+						{Dir: 2, Name: "o.txt", Content: Content{Data: []byte("content of o")}},         // 4
+						{Dir: -1, Name: "big.dat", Perm: "0444", Content: Content{Pad: 70000, Seed: 9}}, // 5
+					},
+					Links: []Link{
+						{Kind: "hard", Of: 0, Dir: -2, Name: "a-link.dat"},   // 6: same directory
+						{Kind: "hard", Of: 0, Dir: 0, Name: "a-in-sub.txt"},  // 7: another directory, another extension
+						{Kind: "hard", Of: 6, Dir: 2, Name: "a3.dat"},        // 8: a third name, made from the second
+						{Kind: "hard", Of: 1, Dir: 2, Name: "e-link.dat"},    // 9: empty file
+						{Kind: "hard", Of: 2, Outside: true},                 //    one name in the tree, one outside
+						{Kind: "hard", Of: 3, Dir: -1, Name: "d-top.dat"},    // 10: deep file, second name in the source directory
+						{Kind: "hard", Of: 5, Dir: 1, Name: "big2.dat"},      // 11: top file, second name deep in the tree
+						{Kind: "copy", Of: 0, Dir: -2, Name: "a-copy.dat"},   // 12
+						{Kind: "hard", Of: 4, Dir: -2, Name: "o-link.txt"},   // 13
+						{Kind: "symfile", Of: 4, Dir: -1, Name: "o-sym.txt"}, // relative target
+						{Kind: "symfile", Of: 2, Dir: 2, Name: "s-sym.dat", Abs: true},
+						{Kind: "symfile", Of: 0, Dir: 0, Name: "out-sym.dat", Outside: true},
+						{Kind: "symdir", Of: 1, Dir: -1, Name: "sub-sym"},
+						{Kind: "symdir", Of: 0, Dir: 1, Name: "up.dat"}, // the source directory itself, from two levels down
+						{Kind: "symdir", Of: 3, Dir: 0, Name: "other-sym.txt", Abs: true},
+					}}
+				if rounds > 1 {
+					c.Rounds = []Round{
+						{Edits: []Edit{
+							{Of: 7, Op: "grow", Extra: Content{Data: []byte(" and more")}}, // through the second name
+							{Of: 9, Op: "rewrite", Extra: Content{Data: []byte("no longer empty")}},
+							{Of: 3, Op: "samelen"},
+							{Of: 11, Op: "shrink"},
+							{Of: 12, Op: "collide"},
+						}},
+						{Remove: []DestOp{{Kind: "dir", Of: 0}}, Edits: []Edit{
+							{Of: 0, Op: "delete"}, // the first name goes, the inode stays under two others
+							{Of: 4, Op: "delete"}, // target of a symbolic link, the inode stays under o-link.txt
+							{Of: 10, Op: "replace", Extra: Content{Data: []byte("a new inode under an old name")}},
+							{Of: 5, Op: "empty"},
+							{Of: 2, Op: "replace", Extra: Content{Data: []byte("content of s")}}, // same bytes, new inode
+						}},
+					}
+				}
+				info, v := RunTree(c)
+				if info.Infra != "" {
+					t.Fatalf("infra: %s", info.Infra)
+				}
+				st.Report(t, "TestC20TreeLinks", c, v)
+				recordTree(c, info)
+				ran++
+			}
+		}
+	}
+	st.SetExhaustive("trees_with_linked_entries", map[string]any{"cases_this_shard": ran, "shards": shards})
 }
 
 // TestC20TreeManyFiles: systematic trees with more regular files than the process may open descriptors while ZipFolder
